@@ -107,8 +107,19 @@ func fieldName(t types.Type, idx int) string {
 	if n != nil {
 		name = n.Obj().Name()
 	}
-	return name + "." + st.Field(idx).Name()
+	fname := st.Field(idx).Name()
+	if n != nil && n.Obj().Pkg() != nil {
+		if c, ok := canonFields[n.Obj().Pkg().Path()+"."+name+"."+fname]; ok {
+			fname = c
+		}
+	}
+	return name + "." + fname
 }
+
+// canonFields maps "pkgpath.Type.field" of a renamed struct field to the name
+// the rule tables use (resolved at load time by position and type, see
+// fields.json written by -dump-roles).
+var canonFields = map[string]string{}
 
 // ---------------------------------------------------------------------------
 // iteration helpers
